@@ -64,7 +64,7 @@ def run_tlc(ctx):
             try:
                 path = os.path.join(ctx.workdir, "ctc_%d.cfg" % i)
                 tlc.write_cfg(path, constants=dict(V=V, T=T, Ws="{%s}" % ", ".join(map(str, Ws)), D=D, Mode='"%s"' % mode, Dists=("<-", dists), LMVars=lmv),
-                              invariants=["NoPruneIsExact", "NeverMore", "Shape", "Positive", "MassConserved", "Export"])
+                              invariants=["NoPruneIsExact", "NeverMore", "Shape", "Positive", "MassConserved", "Export", "ExportStep"])
                 results[i] = tlc.run(MOD, path, workers=8, timeout=3000, coverage=(T <= 2 and mode == "none"))
             except Exception as ex:
                 errs.append(ex)
@@ -85,11 +85,116 @@ def run_tlc(ctx):
         ctx.add_tlc(name, res)
         V, T, _, D, mode, _, _ = c
         for r in res.records:
+            if r.get("kind") == "step":
+                skey = (V, D, mode, r["W"], r["lmv"], r["t"], tuple(r["p"]), tuple(sorted((tuple(e["y"]), e["nb"], e["b"]) for e in r["prev"])))
+                STEPS.setdefault(skey, []).append(r)
+                continue
             key = (V, T, r["W"], D, mode, r["lmv"], tuple(tuple(f) for f in r["P"]))
             cases.setdefault(key, []).append(r)
     if not cases:
         raise MachineryError("no CTC cases exported")
     return cases
+
+
+STEPS = {}
+
+
+def lmw(V, lmv, y):
+    """CTCPrefix!LMW as a list over labels (y over 0..V-1)"""
+    from ..doubles.tablelm import code_of
+
+    if V == 1:
+        return [L]
+    l1 = 1 + ((code_of(y, V) + lmv) % 2)
+    return [l1, L - l1]
+
+
+def replay_steps(ctx):
+    """spec -> code for single Frame transitions: functional.ctc_prefix_search_advance applied to the spec's
+    previous beam (slots in a seeded order, junk slots appended) must yield one of the spec's successor beams."""
+    from pydrobert.torch import functional as F
+
+    keys = sorted(STEPS)
+    if ctx.quick and len(keys) > 2500:
+        keys = ctx.rng.sample(keys, 2500)
+    for skey in keys:
+        V, D, mode, W, lmv, t, p, prev = skey
+        beta, mix, E = MODE_ARGS[mode]
+        prev = list(prev)
+        ctx.rng.shuffle(prev)
+        njunk = ctx.rng.choice((0, 0, 1, 2)) if t > 1 else 0
+        Kp = len(prev) + njunk
+        S = t - 1
+        y_prev = torch.zeros(S, 1, Kp, dtype=torch.long)
+        lens = torch.zeros(1, Kp, dtype=torch.long)
+        last = torch.zeros(1, Kp, dtype=torch.long)
+        nb = torch.full((1, Kp), -math.inf, dtype=torch.double)
+        b = torch.full((1, Kp), -math.inf, dtype=torch.double)
+        ext = torch.zeros(1, Kp, V, dtype=torch.double)
+        for k, (y, nbk, bk) in enumerate(prev):
+            y0 = [v - 1 for v in y]
+            for i in range(S):
+                y_prev[i, 0, k] = y0[i] if i < len(y0) else ctx.rng.randrange(V)
+            lens[0, k] = len(y0)
+            last[0, k] = y0[-1] if y0 else ctx.rng.randrange(V)
+            den = float(D ** (t - 1) * E ** len(y0))
+            nb[0, k], b[0, k] = nbk / den, bk / den
+            lw = lmw(V, lmv, y0)
+            for v in range(V):
+                if mode == "none":
+                    ext[0, k, v] = p[v] / D
+                elif mode == "fusion":
+                    ext[0, k, v] = (p[v] / D) * (lw[v] / L)
+                elif mode == "mix_half":
+                    ext[0, k, v] = 0.5 * p[v] / D + 0.5 * (lw[v] / L) * (1 - p[V] / D)
+                else:
+                    ext[0, k, v] = (lw[v] / L) * (1 - p[V] / D)
+        for k in range(len(prev), Kp):  # junk slots: -inf mass, arbitrary content, prefix of nothing
+            for i in range(S):
+                y_prev[i, 0, k] = ctx.rng.randrange(V)
+            ext[0, k] = torch.tensor([p[v] / D for v in range(V)], dtype=torch.double)
+        paths = [tuple(v - 1 for v in y) for y, _, _ in prev]
+        isp = torch.zeros(1, Kp, Kp, dtype=torch.bool)
+        for i, a in enumerate(paths):
+            for j, c in enumerate(paths):
+                isp[0, i, j] = len(a) <= len(c) and c[: len(a)] == a
+        nonext = torch.tensor([[p[v] / D for v in range(V)]], dtype=torch.double)
+        blank = torch.tensor([p[V] / D], dtype=torch.double)
+        case = dict(step=dict(V=V, D=D, mode=mode, W=W, lmv=lmv, t=t, p=list(p), prev=[[list(y), n_, b_] for y, n_, b_ in prev], junk=njunk))
+        try:
+            y_next, y_last, y_lens, (nb2, b2), isp2, src, is_nonext = F.ctc_prefix_search_advance(
+                (ext, nonext, blank), W, (nb, b), y_prev, last, lens, isp)
+        except Exception as ex:
+            ctx.violation(dict(site="ctc_prefix_search_advance", kind="exception", mode=mode), "raised %r" % ex, case)
+            continue
+        ctx.case(n=1)
+        ctx.count("advance_steps")
+        tot = (nb2 + b2)[0].tolist()
+        if any(x != x for x in tot) or any(x != x for x in nb2[0].tolist()) or any(x != x for x in b2[0].tolist()):
+            ctx.violation(dict(site="ctc_prefix_search_advance", kind="nan", mode=mode), "NaN mass %r" % (tot,), case)
+            continue
+        got = {}
+        dup = False
+        for k in range(len(tot)):
+            if not tot[k] > 0:
+                continue
+            n = int(y_lens[0, k])
+            pref = tuple(y_next[:n, 0, k].tolist())
+            if pref in got:
+                dup = True
+            den = float(D ** t * E ** n)
+            got[pref] = (float(nb2[0, k]) * den, float(b2[0, k]) * den)
+        if dup:
+            ctx.violation(dict(site="ctc_prefix_search_advance", kind="duplicate", mode=mode), "a prefix with positive mass appears twice", case)
+            continue
+        for succ in STEPS[skey]:
+            want = {tuple(v - 1 for v in e["y"]): (e["nb"], e["b"]) for e in succ["beam"]}
+            if set(want) == set(got) and all(abs(got[q][0] - want[q][0]) <= 1e-6 * max(1, want[q][0]) and
+                                             abs(got[q][1] - want[q][1]) <= 1e-6 * max(1, want[q][1]) for q in want):
+                break
+        else:
+            ctx.violation(dict(site="ctc_prefix_search_advance", kind="successor", mode=mode),
+                          "result %r is none of the %d legal successor beams of the given beam" % (got, len(STEPS[skey])), case)
 
 
 def make_lm(V, T, lmvs):
@@ -242,12 +347,16 @@ def run(ctx):
             ks = [ctx.rng.choice(keys) for _ in range(ctx.rng.choice((2, 3, 4)))]
             run_batch(ctx, ks, cases, "batch")
             ctx.case(n=len(ks))
+    replay_steps(ctx)
     if not ctx.samples:
         k = sorted(cases)[len(cases) // 2]
         ctx.samples.append(dict(V=k[0], T=k[1], width=k[2], D=k[3], mode=k[4], frame_weights=[list(f) for f in k[6]]))
 
 
 def replay(ctx, case):
+    if "step" in case:
+        print("single-step case; re-run the check to reproduce:", case["step"])
+        return
     from pydrobert.torch.modules import CTCPrefixSearch
 
     b = case["batch"]
